@@ -12,7 +12,15 @@ pub type RPk<C> = <<C as Suite>::R as RC>::Pk;
 pub type RSig<C> = <<C as Suite>::R as RC>::Sig;
 
 pub trait Suite:
-    BlsSignatureImpl + Copy + core::fmt::Debug + PartialEq + Eq + Default + 'static
+    BlsSignatureImpl
+    + Copy
+    + core::fmt::Debug
+    + PartialEq
+    + Eq
+    + Default
+    + serde::Serialize
+    + serde::de::DeserializeOwned
+    + 'static
 {
     type R: RC;
     const NAME: &'static str;
